@@ -104,13 +104,26 @@ def shape(exp, obs):
         return "served_after_close"
     if obs["logs"]:
         return "log:" + ",".join("%s/%s" % (n, l) for n, l in obs["logs"])
+    if exp["rej"] != "none" and len(om) >= len(em) and om and om[-1]["end"] == "F" and \
+            (len(om) > len(em) or em[-1]["end"] != "F"):
+        return "accepted_refused"
     return "other"
 
 
-def server_sig(div, mode):
+def input_tags(wire):
+    """Syntactic features of the input (not its meaning), so that a known finding is matched by the
+    shape of the failing input and a different failure of the same kind is still reported."""
+    w = bytes(wire)
+    tags = []
+    if b"\r\r\n" in w:
+        tags.append("crcrlf")
+    return tags
+
+
+def server_sig(div, mode, wire):
     exp, obs = div["exp"], div["obs"]
     return {"side": "server", "app": mode, "why": div["why"], "rej": exp["rej"], "shape": shape(exp, obs),
-            "act": div["act"]}
+            "act": div["act"], "tags": input_tags(wire)}
 
 
 def schedules(wire, family, rng):
@@ -142,7 +155,7 @@ def server_replayer(extra, path):
                                         eof_after=len(wire), env=env)
             if div:
                 div["pieces"] = [len(c) for c in ch]
-                div["sig"] = server_sig(div, extra["app"])
+                div["sig"] = server_sig(div, extra["app"], wire)
                 return div
         return None
     finally:
@@ -228,7 +241,7 @@ def classify_server(t, bad, exp):
     e.out, e.closed, e.rej, e.gzflux, e.gzdec = exp["out"], exp["closed"], exp["rej"], exp["gzflux"], exp["gzdec"]
     why = D.compare_server(e, bad["obs"])
     return {"side": "server", "app": "delegate", "why": why or "tlc-only", "rej": exp["rej"],
-            "shape": shape(D.exp_json(e), bad["obs"])}
+            "shape": shape(D.exp_json(e), bad["obs"]), "tags": input_tags(t["wire"])}
 
 
 def record_random_server(args):
